@@ -35,6 +35,9 @@ class WaterCycleOptimization(OptimizationAbstract):
     def set_config_parameters(self, parameters: dict[str, Any]):
         self._config = WaterCycleOptimizationConfig(**parameters)
 
+    def before_initialization(self):
+        self.__ecc = 1e-6
+
     def after_initialization(self):
         n_stream = self._config.population_size - self._config.nsr
         self.__pop_best = self._population[:self._config.nsr]
